@@ -38,7 +38,7 @@ func isTxPtr(t types.Type) bool {
 // stmtLoop finds the header block of `for … range req.Statements`.
 func stmtLoop(fn *ssa.Function) (header, body, done *ssa.BasicBlock) {
 	for _, b := range fn.Blocks {
-		if b.Comment != "rangeindex.loop" {
+		if !isLoopHeader(b) {
 			continue
 		}
 		// the loop condition compares the index with len(<Statements>)
